@@ -768,9 +768,20 @@ func checkIsMessage(r *Run, rc *RuleCtx, cl *closures) {
 		have := headerGuards(pr, ret, nil)
 		rc.Instance("Decode success return", true, map[string]interface{}{"IsMessage_requires": sortedKeys(want), "Decode_success_implies": sortedKeys(have)})
 		for w := range want {
-			if !have[w] {
-				rc.Violation(dm, instrPos(ret), "IsMessage condition "+w, fmt.Sprintf("Decode can succeed without establishing %q, which IsMessage requires (Decode's guards: %v)", w, sortedKeys(have)))
+			if have[w] {
+				continue
 			}
+			// a length condition may follow from other guards: ask PROVE at the return
+			var c int64
+			if n, _ := fmt.Sscanf(w, "len(R) >= %v", &c); n == 1 {
+				if root := cookieRoot(dm); root != nil {
+					l := pr.linLen(root, "len")
+					if res := pr.Prove(ret, Goal{XL: &lin{zeroTerm, c}, YL: &l, C: 0, extra: []ssa.Value{root}}); res.OK {
+						continue
+					}
+				}
+			}
+			rc.Violation(dm, instrPos(ret), "IsMessage condition "+w, fmt.Sprintf("Decode can succeed without establishing %q, which IsMessage requires (Decode's guards: %v)", w, sortedKeys(have)))
 		}
 	}
 	if n == 0 {
@@ -924,4 +935,17 @@ func isU16At(pr *Prover, v ssa.Value, off int64) bool {
 		return false
 	}
 	return false
+}
+
+// cookieRoot: the byte slice whose bytes [4:8) Decode compares with the magic cookie.
+func cookieRoot(fn *ssa.Function) ssa.Value {
+	var root ssa.Value
+	eachInstr(fn, func(b *ssa.BasicBlock, i int, in ssa.Instruction) {
+		if name, w, buf, ok := accessorCall(in); ok && w == 4 && name == "Uint32" && root == nil {
+			if sl, ok := buf.(*ssa.Slice); ok {
+				root = sl.X
+			}
+		}
+	})
+	return root
 }
